@@ -180,6 +180,10 @@ void h_set(void)
     /* fixed-size types are set with their size (as the typed setters do) */
     { enum udict_type base_ = t1 > UDICT_TYPE_SHORTHAND ? inline_shorthands[t1 - UDICT_TYPE_SHORTHAND - 1].base_type : t1;
       if (base_ != UDICT_TYPE_OPAQUE && base_ != UDICT_TYPE_STRING) VASSUME(n == attr_sizes[base_]); }
+#ifdef SET_KIND
+    /* case split on the kind of the key being set (one group each): shorthand or named */
+    VASSUME(SET_KIND ? t1 > UDICT_TYPE_SHORTHAND : t1 <= UDICT_TYPE_FLOAT);
+#endif
     VASSUME(!SAME_KEY(k1, t1, k2, t2));
     struct vget before = do_get(d, k2, t2, gi);
     uint8_t *slot = NULL;
